@@ -1,1 +1,21 @@
 import RaftLogModel.Props.C02
+open RaftLog
+#print axioms c02_smApply_cache_free
+#print axioms c02_smApply_independent_of_cache
+#print axioms c02_replay_spec
+#print axioms c02_replay_fresh
+#print axioms c02_replay_call
+#print axioms c02_replay_flush
+#print axioms c02_replay_worker
+#print axioms c02_replay_workerIdle
+#print axioms c02_replay_drain
+#print axioms c02_replay_invariant
+#print axioms c02_linked_files
+#print axioms c02_restart_step
+#print axioms c02_clean_restart
+#print axioms c02_refinement_continues
+#print axioms c02_history_after_restart
+#print axioms c02_removed_needed
+#print axioms c02_cycles
+#print axioms c02_restart_refines
+#print axioms c02_cycles_refines
